@@ -153,23 +153,34 @@ Print Assumptions C02_compile_bridge.
 
 (* the heart: such a route matches exactly the paths that consist of its
    literal text and of segments accepted, as whole strings, by its filters;
-   nothing may precede, follow or be missing *)
-Theorem C02_route_language :
+   nothing may precede, follow or be missing.
+   _partial: the full statement quantifies over every route text and every
+   filter expression Python's re accepts.  Proved for the routes the
+   structured compiler accepts: literal text without regex metacharacters
+   (the property's alphabet), group names that are ASCII identifiers, filter
+   expressions (built-in, set_filter, inline :re:) inside the modelled
+   subset of re's syntax and free of end anchors.  Missing: expressions
+   outside that subset (look-around, back-references, lazy/possessive
+   quantifiers, ^ \b \A, quantified sub-expressions that can match the
+   empty string); the model fails closed on them and the harness counts
+   them.  The same restriction is the only reason for the _partial suffix
+   of the three theorems that follow from this one. *)
+Theorem C02_route_language_partial :
   forall U F uri r n p,
     compile_route U F uri = Some (r, n) ->
     (accepts U r p = true <-> InRoute U F uri p).
 Proof. exact route_language. Qed.
-Print Assumptions C02_route_language.
+Print Assumptions C02_route_language_partial.
 
 (* the dispatcher uses pattern.match, anchored at the start only: same
    language, because the text ends in \Z (no slack for a trailing newline:
    p ++ "\n" is matched iff p ++ "\n" itself is such a reading) *)
-Theorem C02_route_language_match :
+Theorem C02_route_language_match_partial :
   forall U F uri r n p,
     compile_route U F uri = Some (r, n) ->
     (re_match U r p <> None <-> InRoute U F uri p).
 Proof. exact route_language_match. Qed.
-Print Assumptions C02_route_language_match.
+Print Assumptions C02_route_language_match_partial.
 
 (* /i/<n:int>: "/i/12" yes; "/i/12\n", "/i/12/", "/I/12" no *)
 Theorem C02_int_route_newline :
@@ -206,7 +217,7 @@ Print Assumptions C02_builtin_no_re_key.
    segments, in declaration order, under the declared names
    ([convert_all]: what run_entry computes from match.group(name);
    [convert_segs cvs vs]: converter i applied to segment i) *)
-Theorem C02_captures_by_name :
+Theorem C02_captures_by_name_partial :
   forall U F uri r n cvs p c rest,
     compile_route U F uri = Some (r, n) ->
     converters F (scan_uri U uri) = Ok cvs ->
@@ -216,4 +227,39 @@ Theorem C02_captures_by_name :
       map fst cvs = grp_names (scan_uri U uri) /\
       convert_all U r c cvs = convert_segs U cvs vs.
 Proof. exact captures_by_name. Qed.
-Print Assumptions C02_captures_by_name.
+Print Assumptions C02_captures_by_name_partial.
+
+(* ------------------------------------------------------------- end to end *)
+(* A <name:filter> route registered as a new pattern: a request for one of
+   its methods that no static route and no earlier pattern claims runs its
+   handler exactly when the path is in the route's language -- with
+   converter i applied to segment i, positionally and by name, uri_rule =
+   the route text (a raising converter fails the request) -- and is passed
+   on to the fallback chain otherwise. *)
+Theorem C02_group_route_dispatch_partial :
+  forall U a uri f mask a' r n cvs t,
+    compile_route U (a_filters a) uri = Some (r, n) ->
+    compile_text U (a_filters a) uri = Ok t ->
+    converters (a_filters a) (scan_uri U uri) = Ok cvs ->
+    pat_mem t (a_pats a) = false ->
+    set_route U a uri f mask = Ok a' ->
+    forall debug root fs method raw,
+      let m := method_number method in
+      let path := req_path raw in
+      lget path (a_static a) = None ->
+      (forall q, In q (a_pats a) ->
+                 ~ (MatchesPrefix U (p_re q) path /\ zmem m (p_tab q) = true)) ->
+      existsb (Z.eqb m) meths = true -> has_bit mask m = true ->
+      (InRoute U (a_filters a) uri path ->
+       exists vs,
+         Segments U (a_filters a) (scan_uri U uri) path vs /\
+         select U a' debug root fs method raw =
+         match convert_segs U cvs vs with
+         | Ok pargs => SHandler f (map snd pargs) pargs uri
+         | Raised "raise" => SConvError
+         | Raised _ => SUnknown
+         end) /\
+      (~ InRoute U (a_filters a) uri path ->
+       select U a' debug root fs method raw = fallback a' debug root fs m path).
+Proof. exact group_route_dispatch. Qed.
+Print Assumptions C02_group_route_dispatch_partial.
